@@ -71,12 +71,24 @@ def generate(rng, tier):
                          ['split', rng.choice([['floordiv', 50], ['id'], ['floordiv', 2]]), inner],
                          ['tee', rng.choice(['zip', 'merge', 'combine_latest']), [[['count', 0]], [['lag', 1]], [['take', big]]]],
                          ['tee', rng.choice(['zip', 'zip', 'combine_latest']), [[['first']], [['last']], [['count', 1]]]]])
-        shape = None
+        shape, wave = None, None
         if i % 4 == 0:
-            # many live keys created in waves x join cells that stay pending (branches of different cadence)
-            op = ['tee', rng.choice(['zip', 'zip', 'combine_latest']), [[['first']], [['last']], [['count', 1]]]]
-            shape = 'many'
-        cases.append({'ast': [op], 'trace': muxgen.gen_trace_scale(rng, shape), 'scale': True})
+            # many live keys created in waves x join cells that stay pending (branches of different cadence): the join
+            # and the wave size follow the case number, so that every run has zip with keys created WHILE rows are pending
+            op = ['tee', ['zip', 'combine_latest', 'zip'][(i // 4) % 3], [[['first']], [['last']], [['count', 1]]]]
+            shape, wave = 'many', [7, 16, 1][(i // 4) % 3]
+        cases.append({'ast': [op], 'trace': muxgen.gen_trace_scale(rng, shape, wave=wave), 'scale': True})
+    # join cells left with FALSY values when a key ends (0 unpaired in one branch, the other silent), the slot reused by the
+    # next window in which the other branch delivers first: a reset must not depend on the truth value of what is pending
+    if tier != 'search':
+        lo, hi = [['filter', ['lt', muxgen.ev(1)]]], [['filter', ['gt', muxgen.ev(0)]]]
+        for join in ('zip', 'combine_latest'):
+            for brs in ([lo, hi], [hi, lo], [[['map', ['mul', muxgen.ev(0)]]], hi]):
+                for head in (['split', ['floordiv', 3]], ['roll', 2, 2], ['time_split', ['id'], None, 2, None, 1]):
+                    key = [rng.choice([0, 2, 5])]
+                    items = [0, 5, 3, 0, 0, 4, 7, 0] if head[0] != 'time_split' else [0, 0, 3, 4, 7, 7, 10, 10]
+                    trace = [['c', key]] + [['n', key, muxgen.ev(x)] for x in items] + [['d', key]]
+                    cases.append({'ast': [head + [[['tee', join, brs]]]], 'trace': trace})
     # spread the expensive cases over the shards (one coqc per shard, run in parallel)
     small = [c for c in cases if not c.get('scale')]
     bigs = [c for c in cases if c.get('scale')]
